@@ -45,6 +45,10 @@ ShortChains(P, el, thr) ==
             : c \in { c \in Nodes(P) : Par(P, c) # -1 /\ IsFurc(P, Par(P, c)) } }
 KeepShortTip(P, el, thr) == Nodes(P) \ ShortChains(P, el, thr)
 
+\* Tree.get_neurites: one subtree per child of the root; Tree.get_dendrites: those whose first node is a basal (3) or apical (4) dendrite
+Neurites(P)      == { Desc(P, c) : c \in Kids(P, 0) }
+Dendrites(P, ty) == { Desc(P, c) : c \in { k \in Kids(P, 0) : ty[k + 1] \in {3, 4} } }
+
 \* ---- the relation every result must satisfy -----------------------------
 \* c.P, c.attr : input;  K : expected survivors;  map : new id -> old id;  rpid, rattr : the result
 ResultWhy(P, attr, K, map, rpid, rattr) ==
